@@ -56,6 +56,11 @@ def renderKeys (ks : List Keyring.Key) : String :=
   "ok " ++ ";".intercalate (ks.map fun k =>
     hexOfStr k.name ++ "|" ++ hexOfStr k.pk ++ "|" ++ (match k.sk with | some s => hexOfStr s | none => "none"))
 
+/-- the keys of a keyring built by the GENERATED `Keyring::new` (KestrelModel/GeneratedKeyring.lean), in `renderKeys` format -/
+def renderKeysSrc (kr : KeyringSrc.Keyring) : String :=
+  "ok " ++ ";".intercalate (kr.keys.map fun k =>
+    hexOfStr k.name ++ "|" ++ hexOfStr k.public_key._0 ++ "|" ++ (match k.private_key with | some s => hexOfStr s._0 | none => "none"))
+
 def bytesOfStr (s : List Char) : Bytes := Keyring.utf8 s
 
 def parsePairs (s : String) : List (List Char × Bytes) :=
@@ -91,7 +96,25 @@ def cachedKdf (c : KdfCache) (pw salt : Bytes) : IO Bytes := do
     c.set (((pw, salt), k) :: l.take 63)
     pure k
 
+/-- the keyring of the unit tests of keyring.rs (`KEYRING_INI`) -/
+def keyringIni : List Char := "
+[Key]
+# comment lines are fine.
+Name = alice
+PublicKey = D7ZZstGYF6okKKEV2rwoUza/tK3iUa8IMY+l5tuirmzzkEog
+PrivateKey = ZWdrMPEp09tKN3rAutCDQTshrNqoh0MLPnEERRCm5KFxvXcTo+s/Sf2ze0fKebVsQilImvLzfIHRcJuX8kGetyAQL1VchvzHR28vFhdKeq+NY2KT
+
+[Key]
+Name = Bobby Bobertson
+PublicKey = CT/e0R9tbBjTYUhDNnNxltT3LLWZLHwW4DCY/WHxBA8am9vP
+".toList
+
 def selftestCases : List (String × String × String) := [
+  ("keyring src (translated keyring.rs) on KEYRING_INI = model",
+    (match KeyringSrc.Keyring.new keyringIni with | .ok kr => renderKeysSrc kr | .error _ => "err"),
+    (match Keyring.parse keyringIni with | some ks => renderKeys ks | none => "err model")),
+  ("keyring src (translated keyring.rs) KEYRING_INI has 2 keys",
+    (match KeyringSrc.Keyring.new keyringIni with | .ok kr => toString kr.keys.length | .error _ => "err"), "2"),
   ("sha256 abc", hex (sha256 (ofStr "abc")), "ba7816bf8f01cfea414140de5dae2223b00361a396177a9cb410ff61f20015ad"),
   ("sha256 empty", hex (sha256 []), "e3b0c44298fc1c149afbf4c8996fb92427ae41e4649b934ca495991b7852b855"),
   ("sha256 448 bits", hex (sha256 (ofStr "abcdbcdecdefdefgefghfghighijhijkijkljklmklmnlmnomnopnopq")),
@@ -225,6 +248,51 @@ def handle (kc : KdfCache) (line : String) : IO String := do
   | ["dec_chunks", key, aad, cs, inp, rs, ws, fs] =>
     let (res, s, k) := decryptChunksIO P.aead (unhex key) (unhex aad) cs.toNat! (mkSrc inp rs) (mkSnk ws fs)
     pure (fmtStream res s k)
+  | ["enc_chunks_src", key, aad, cs, inp, rs, ws, fs] =>
+    -- the definitions generated from encrypt.rs by tools/rs2lean_stream.py (fuel: the bound of `stream_source_encrypt_chunks`)
+    let src := mkSrc inp rs
+    match StreamSrc.encrypt.encrypt_chunks P.aead src (mkSnk ws fs) (unhex key) (unhex aad) cs.toNat!
+        (src.inp.length + src.script.length + 2) with
+    | some (res, s, k) => pure (fmtStream res s k)
+    | none => pure "err out of fuel"
+  | ["dec_chunks_src", key, aad, cs, inp, rs, ws, fs] =>
+    let src := mkSrc inp rs
+    match StreamSrc.decrypt.decrypt_chunks P.aead src (mkSnk ws fs) (unhex key) (unhex aad) cs.toNat!
+        (src.inp.length + 1) with
+    | some (res, s, k) => pure (fmtStream res s k)
+    | none => pure "err out of fuel"
+  | ["key_encrypt_src", s, spk, rs, e, epk, pk, inp, rsc, ws, fs] =>
+    -- file-level functions as generated from encrypt.rs / decrypt.rs (tools/rs2lean_stream.py); same output format
+    let src := mkSrc inp rsc
+    match StreamSrc.encrypt.key_encrypt P.aead P (fun n => zeros n) src (mkSnk ws fs) (unhex s) (unhex spk) (unhex rs)
+        (some (unhex e)) (some (unhex epk)) (some (unhex pk)) .V1 (src.inp.length + src.script.length + 2) with
+    | some (res, s, k) => pure (fmtStream res s k)
+    | none => pure "err out of fuel"
+  | ["key_decrypt_src", r, rpk, inp, rsc, ws, fs] =>
+    let src := mkSrc inp rsc
+    match StreamSrc.decrypt.key_decrypt P.aead P src (mkSnk ws fs) (unhex r) (unhex rpk) .V1 (src.inp.length + 1) with
+    | some (.ok sender, s, k) => pure (fmtStream .ok s k ++ " sender=" ++ hex sender)
+    | some (.error res, s, k) => pure (fmtStream res s k ++ " sender=-")
+    | none => pure "err out of fuel"
+  | ["pass_encrypt_src", pw, salt, inp, rsc, ws, fs] => do
+    let key ← cachedKdf kc (unhex pw) (unhex salt)
+    let P' := { P with kdf := fun _ _ => key }
+    let src := mkSrc inp rsc
+    match StreamSrc.encrypt.pass_encrypt P'.aead P' src (mkSnk ws fs) (unhex pw) (unhex salt) .V1
+        (src.inp.length + src.script.length + 2) with
+    | some (res, s, k) => pure (fmtStream res s k)
+    | none => pure "err out of fuel"
+  | ["pass_decrypt_src", pw, inp, rsc, ws, fs] => do
+    let b := unhex inp
+    let salt := (b.drop 4).take 32
+    let P' ← if b.length ≥ 36 then do
+        let key ← cachedKdf kc (unhex pw) salt
+        pure { P with kdf := fun _ s => if s = salt then key else P.kdf (unhex pw) s }
+      else pure P
+    let src : Src := { inp := b, script := parseRd rsc }
+    match StreamSrc.decrypt.pass_decrypt P'.aead P' src (mkSnk ws fs) (unhex pw) .V1 (src.inp.length + 1) with
+    | some (res, s, k) => pure (fmtStream res s k)
+    | none => pure "err out of fuel"
   | ["key_encrypt", s, spk, rs, e, epk, pk, inp, rsc, ws, fs] =>
     let (res, src, k) := keyEncryptIO P (unhex s) (unhex spk) (unhex rs) (unhex e) (unhex epk) (unhex pk) (mkSrc inp rsc) (mkSnk ws fs)
     pure (fmtStream res src k)
@@ -309,6 +377,13 @@ def handle (kc : KdfCache) (line : String) : IO String := do
     | some str => match Keyring.parse str with
       | some ks => pure (renderKeys ks)
       | none => pure "err parse"
+  | ["parse_keyring_src", t] =>
+    match strOfHex t with
+    | none => pure "err badutf8"
+    | some str => match KeyringSrc.Keyring.new str with
+      | .ok kr => pure (renderKeysSrc kr)
+      | .error .ParseConfig => pure "err parse"
+      | .error e => pure ("err " ++ (repr e).pretty)
   | ["serialize_key", n, p, s] =>
     match strOfHex n, strOfHex p, strOfHex s with
     | some n, some p, some s => pure ("ok " ++ hexOfStr (Keyring.serializeKey n p s))
